@@ -1,12 +1,15 @@
-"""Parallel verification of a set of contracts (one process per function)."""
+"""Parallel verification: paths of all selected functions are explored in waves by a pool of worker
+processes (each decision prefix is one task; workers cache their engine)."""
 from __future__ import annotations
 
+import hashlib
 import importlib
 import json
 import multiprocessing as mp
 import os
 import sys
 import time
+import traceback
 
 
 def load_registry(modules):
@@ -18,22 +21,80 @@ def load_registry(modules):
     return reg
 
 
-def _work(args):
-    modules, file, qualname, opts = args
-    sys.setrecursionlimit(20000)
-    from .frontend import Frontend, setup_repo_path
-    setup_repo_path()
-    from .execs import Exec
-    from .verify import verify_function
-    reg = load_registry(modules)
-    eng = Exec(reg, Frontend())
-    c = reg.contracts[(file, qualname)]
-    hook = None
-    if opts.get("replay"):
-        from . import replay
-        hook = replay.model_hook
-    r = verify_function(eng, c, recheck_cvc5=opts.get("recheck_cvc5", False), model_hook=hook)
-    return r.to_json()
+_ENG = {}
+
+
+def _engine(modules):
+    key = tuple(modules)
+    if key not in _ENG:
+        sys.setrecursionlimit(20000)
+        from .frontend import Frontend, setup_repo_path
+        setup_repo_path()
+        from .execs import Exec
+        reg = load_registry(modules)
+        _ENG[key] = (Exec(reg, Frontend()), reg)
+    return _ENG[key]
+
+
+def _path_work(args):
+    """Run ONE path (decision prefix) of one function and discharge its obligations."""
+    modules, file, qualname, prefix, opts, hard = args
+    import z3
+    from .state import State, PathCut, Unsupported
+    from . import solve, verify, lib
+    out = {"key": (file, qualname), "prefix": prefix, "obligations": [], "alternatives": [], "terminal": False,
+           "status": "ok", "reason": "", "touched": {}, "time": 0.0, "lib_used": []}
+    t0 = time.time()
+    try:
+        eng, reg = _engine(modules)
+        c = reg.contracts[(file, qualname)]
+        if c.lemma_src is not None:
+            fi = eng.fe.lemma_func(c)
+        else:
+            fi = eng.fe.func(c.file, c.qualname)
+        eng.touched = {fi.key: eng.fe.source_hash(fi)}
+        eng.inline_depth = 0
+        eng.spec_mode = 0
+        eng.spec_stack = []
+        st = State(prefix)
+        try:
+            eng.run_path(st, fi, c)
+            out["terminal"] = True
+        except PathCut:
+            pass
+        out["alternatives"] = st.alternatives
+        hook = None
+        if opts.get("replay"):
+            from . import replay
+            hook = replay.model_hook
+        inc = solve.PathSolver(st.facts, set(hard))
+        for ob in st.obligations:
+            if ob.kind == "guarded-by":
+                ob.status = "discharged" if z3.is_true(ob.goal) else "failed"
+                ob.backend = "ghost-lockset"
+            else:
+                inc.discharge(ob, recheck_cvc5=opts.get("recheck_cvc5", False))
+            if ob.status == "failed" and hook is not None and ob.model is not None:
+                try:
+                    hook(eng, st, fi, c, ob)
+                except Exception as e:  # replay is best effort
+                    ob.info["replay_error"] = repr(e)
+            out["obligations"].append(verify.ob_to_dict(ob))
+        out["touched"] = {"%s:%s" % k: v for k, v in eng.touched.items()}
+        out["lib_used"] = sorted(lib.USED)
+    except Unsupported as e:
+        out["status"], out["reason"] = "undecided", str(e)
+    except (KeyError, FileNotFoundError, OSError, SyntaxError, ImportError) as e:
+        out["status"], out["reason"] = "undecided", "function not found / not importable: %r" % (e,)
+    except RecursionError:
+        out["status"], out["reason"] = "undecided", "recursion limit"
+    except Exception as e:
+        out["status"], out["reason"] = "error", "%r\n%s" % (e, traceback.format_exc()[-2500:])
+    out["time"] = time.time() - t0
+    return out
+
+
+MAX_PATHS = int(os.environ.get("PYVC_MAX_PATHS", "6000"))
 
 
 def run(modules, select=None, jobs=None, opts=None):
@@ -42,22 +103,62 @@ def run(modules, select=None, jobs=None, opts=None):
     from .frontend import setup_repo_path
     setup_repo_path()
     reg = load_registry(modules)
-    todo = []
+    funcs = {}
     for key, c in reg.contracts.items():
         if c.trusted or c.inline or not c.verify:
             continue
         if select is not None and not select(c):
             continue
-        todo.append((modules, c.key[0], c.key[1], opts))
-    jobs = jobs or min(16, max(1, len(todo)))
+        funcs[key] = {"file": c.file, "qualname": key[1], "paths": 0, "terminal_paths": 0, "obligations": [], "status": "ok",
+                      "reason": "", "src_hash": "", "time": 0.0, "lib_used": set(), "touched": {}, "hard": set(), "deps": []}
     t0 = time.time()
-    if jobs == 1 or len(todo) <= 1:
-        results = [_work(a) for a in todo]
-    else:
-        ctx = mp.get_context("fork")
-        with ctx.Pool(jobs, maxtasksperchild=1) as pool:
-            results = pool.map(_work, todo, chunksize=1)
-    return reg, results, time.time() - t0
+    frontier = [(modules, k[0], k[1], [], opts, ()) for k in funcs]
+    jobs = jobs or int(os.environ.get("PYVC_JOBS", "16"))
+    ctx = mp.get_context("fork")
+    pool = ctx.Pool(jobs) if jobs > 1 else None
+    try:
+        while frontier:
+            if pool is not None:
+                results = pool.map(_path_work, frontier, chunksize=max(1, len(frontier) // (jobs * 8)))
+            else:
+                results = [_path_work(a) for a in frontier]
+            frontier = []
+            for r in results:
+                f = funcs[tuple(r["key"])]
+                f["paths"] += 1
+                f["time"] += r["time"]
+                f["lib_used"] |= set(r["lib_used"])
+                f["touched"].update(r["touched"])
+                if r["status"] != "ok":
+                    if f["status"] == "ok" or r["status"] == "error":
+                        f["status"], f["reason"] = r["status"], r["reason"]
+                    continue
+                if r["terminal"]:
+                    f["terminal_paths"] += 1
+                for ob in r["obligations"]:
+                    ob["path"] = f["paths"]
+                    f["obligations"].append(ob)
+                    if ob["status"] != "discharged":
+                        f["hard"].add(ob["name"])
+                if f["status"] != "ok":
+                    continue
+                if f["paths"] + len(r["alternatives"]) > MAX_PATHS:
+                    f["status"], f["reason"] = "undecided", "more than %d paths" % MAX_PATHS
+                    continue
+                for alt in r["alternatives"]:
+                    frontier.append((modules, r["key"][0], r["key"][1], alt, opts, tuple(sorted(f["hard"]))[:50]))
+    finally:
+        if pool is not None:
+            pool.close()
+            pool.join()
+    out = []
+    for key, f in funcs.items():
+        f["src_hash"] = hashlib.sha256(json.dumps(sorted(f["touched"].items())).encode()).hexdigest()[:16]
+        f["deps"] = sorted(f["touched"])
+        f["lib_used"] = sorted(f["lib_used"])
+        del f["touched"], f["hard"]
+        out.append(f)
+    return reg, out, time.time() - t0
 
 
 if __name__ == "__main__":
@@ -69,8 +170,13 @@ if __name__ == "__main__":
         obs = r["obligations"]
         nd = sum(1 for o in obs if o["status"] == "discharged")
         print("== %-55s %-9s paths=%d obs=%d discharged=%d %.1fs %s" % (r["qualname"], r["status"], r["paths"], len(obs), nd, r["time"], r["reason"][:300]))
+        seen = set()
         for o in obs:
             if o["status"] != "discharged":
                 bad += 1
+                k = (o["status"], o["name"], o.get("outcome"))
+                if k in seen:
+                    continue
+                seen.add(k)
                 print("    %s %s | %s | %s | %s %s" % (o["status"], o["name"], o.get("clause"), o.get("outcome"), o.get("backend"), json.dumps(o.get("model"))[:300]))
     print("wall %.1fs, not discharged: %d" % (wall, bad))
